@@ -191,6 +191,21 @@ func runC02(c *runCfg) error {
 	}
 	for i := 0; i < ns; i++ {
 		cs := g.randomSession(id, "session")
+		if i%8 == 3 && !cs.cfg.tls {
+			// the optional SSL negotiation in front: after the one-byte reply everything must parse,
+			// also when the client repeats the SSLRequest or sends a CancelRequest
+			pre := sslRequest()
+			switch (i / 8) % 4 {
+			case 1:
+				pre = cat(pre, sslRequest())
+			case 2:
+				pre = cat(pre, sslRequest(), sslRequest())
+			case 3:
+				pre = cat(pre, cancelRequest())
+			}
+			cs = flatCase(id, "ssl_session", cs.cfg, cat(pre, cs.raw), nil)
+			cs.id = fmt.Sprint(id)
+		}
 		emitSession(c, cs)
 		id++
 	}
